@@ -58,13 +58,25 @@ def configure():
     cfg = os.path.join(BUILD, "cfg-" + key)
     hdr = os.path.join(cfg, "include", "st_config.h")
     if not os.path.exists(hdr):
-        for old in glob.glob(os.path.join(BUILD, "cfg-*")):
-            shutil.rmtree(old, ignore_errors=True)
-        os.makedirs(cfg, exist_ok=True)
-        r = sh(["cmake", "-S", REPO, "-B", cfg, "-G", "Ninja", "-DST_BUILD_TESTS=OFF"], stdout=subprocess.PIPE, stderr=subprocess.STDOUT, text=True)
-        if r.returncode != 0 or not os.path.exists(hdr):
+        # configure into a private directory and publish it with one rename: concurrent checks
+        # (other properties, other VERIF_REPO values) never see or delete a half-made directory
+        tmp = "%s.tmp%d" % (cfg, os.getpid())
+        shutil.rmtree(tmp, ignore_errors=True)
+        os.makedirs(tmp)
+        r = sh(["cmake", "-S", REPO, "-B", tmp, "-G", "Ninja", "-DST_BUILD_TESTS=OFF"], stdout=subprocess.PIPE, stderr=subprocess.STDOUT, text=True)
+        if r.returncode != 0 or not os.path.exists(os.path.join(tmp, "include", "st_config.h")):
             sys.stderr.write(r.stdout)
+            shutil.rmtree(tmp, ignore_errors=True)
             raise SystemExit("configure failed")
+        keep = os.path.join(tmp, "include")
+        for name in os.listdir(tmp):          # only the generated header is needed
+            if name != "include":
+                pth = os.path.join(tmp, name)
+                shutil.rmtree(pth, ignore_errors=True) if os.path.isdir(pth) else os.remove(pth)
+        try:
+            os.rename(tmp, cfg)
+        except OSError:
+            shutil.rmtree(tmp, ignore_errors=True)   # somebody else published the same configuration first
     return os.path.join(cfg, "include")
 
 
